@@ -209,22 +209,18 @@ def oracle(h):
             break                        # numbers beyond SQLite's INTEGER range: outside the property's domain
         # ---- class predicates (decided on this concrete step) ----
         cls_d11 = mtype == "4" and seq is not None and (seq != exp or (newseq is not None and newseq < exp))
-        cls_d10 = before["st"] == 12 and mtype not in sc.SESSION_TYPES and seq is not None and seq < exp
         cls_d24 = before["st"] == 12 and mtype == "A" and before["role"] == 1
         cls_d26 = mtype == "A" and before["role"] == 2
         if cls_d11:
             tainted = "D11-seqreset-any"     # the expected number may have moved backwards: later re-deliveries follow
             tainted11 = True
-        if cls_d10:
-            tainted = tainted or "D10-dup-during-resend"
         if cls_d24:
             tainted24 = True
         # ---- deliveries ----
         for a in apps:
             aseq = _int(_tag(a, "34"))
             if aseq != exp:
-                fails.append((i, "delivered MsgSeqNum %r while %r was expected" % (aseq, exp),
-                              "D10-dup-during-resend" if cls_d10 else None))
+                fails.append((i, "delivered MsgSeqNum %r while %r was expected" % (aseq, exp), None))
             elif last_delivered is not None and aseq <= last_delivered:
                 fails.append((i, "MsgSeqNum %r delivered again (last delivered %r)" % (aseq, last_delivered), tainted))
             if aseq is not None:
@@ -273,7 +269,7 @@ def oracle(h):
             awaiting, mark = False, None
         if not alive:
             awaiting, mark = False, None
-        if cls_d10 or cls_d11 or cls_d24 or cls_d26:
+        if cls_d11 or cls_d24 or cls_d26:
             # a step of a known class: take the receiver's own view of the outstanding request from here on
             awaiting = after["st"] == 12
             mark = after["maxres"] if awaiting else None
